@@ -70,8 +70,12 @@ def _list_slice(slize: Slice) -> List[Slice]:
         resolved = _resolve_sliceable(slize.parent)
         return list(resolved.parts) if isinstance(resolved, Concat) else [resolved]
 
-    if isinstance(slize.parent, Signal) and (step == 1 or width(slize) == 1):
+    if isinstance(slize.parent, Signal) and step == 1:
         return [slize]  # Already all good! Just make a one-element list.
+    if isinstance(slize.parent, Signal) and width(slize) == 1:
+        # One selected bit, written with a non-unit step. Replace it by the plain index of that bit.
+        index = slize.bot if step > 0 else slize.top - 1
+        return [slize.parent[index]]
 
     # Do some actual work. Recursively peel off a bit at a time.
     if width(slize) == 1:
